@@ -1337,7 +1337,7 @@ class Interp:
                     return Const(x.variant == 'Some')
                 if last == 'is_none':
                     return Const(x.variant == 'None')
-                if last in ('unwrap', 'expect', 'unwrap_or_default', 'unwrap_or') and x.variant == 'Some':
+                if last in ('unwrap', 'expect', 'unwrap_or_default', 'unwrap_or', 'unwrap_or_else') and x.variant == 'Some':
                     return x.fields[0]
                 if last == 'unwrap_or' and x.variant == 'None':
                     return deref(args[1])
